@@ -16,6 +16,18 @@
 //           a<count> doc... | o<count> (k<u.u.u> doc)...
 //           `u` leaves an array slot / an object member undefined.
 //           p <doc> : a pointer value (SetPointerToValue) to a separately owned value built from <doc>
+//           r<16 hex> : a real number (double) given by its bit pattern
+//
+// round c (checks/_tmpl_streams.py):
+//   tplcopy <w> <doc> <units>       -> "K same" | "K diff <fresh>|<copy-constructed>|<copy-assigned>|<appended>" | "K tags-differ …":
+//        the parsed Array<TagBit> is copy-constructed, copy-assigned over a non-empty array and appended
+//        (Array += const Array&) to an empty one; the original is destroyed; each copy must dump and render like the original
+//   tplrendercopy <w> <doc> <units> -> "R <units>": Template::Render's result, but through a copy-assigned copy of a
+//        copy-constructed copy of the parsed tags (the original and the first copy destroyed before rendering)
+//   tplappend <w> <doc> <units>     -> "A same" | "A diff …" | "A value-changed" | "A tags-changed": one parsed cache; for every
+//        pre-existing stream length 0..64 (stream filled one unit at a time, so with the QENTEM_VERIF hook it is exactly
+//        at capacity) the values (root array: its elements in turn; otherwise the root) are rendered consecutively into
+//        that one stream; the stream must be <old content> + <fresh single renders>
 #include <new>
 #include "ledger.hpp"
 #include "common.hpp"
@@ -124,6 +136,23 @@ struct H {
                 toChars(u, c);
                 c.push_back(Char_T(0)); // never read: gives a valid pointer for the empty string
                 out = ValueT{c.data(), SizeT(u.size())};
+                return true;
+            }
+            case 'r': {
+                // r<16 hex digits>: a double by its bit pattern
+                if (strlen(rest) != 16) return false;
+                uint64_t b = 0;
+                for (const char *q = rest; *q; ++q) {
+                    unsigned d;
+                    if (*q >= '0' && *q <= '9') d = unsigned(*q - '0');
+                    else if (*q >= 'A' && *q <= 'F') d = unsigned(*q - 'A') + 10U;
+                    else if (*q >= 'a' && *q <= 'f') d = unsigned(*q - 'a') + 10U;
+                    else return false;
+                    b = (b << 4) | d;
+                }
+                double dv;
+                memcpy(&dv, &b, sizeof dv);
+                out = dv;
                 return true;
             }
             case 'a': {
@@ -368,6 +397,139 @@ struct H {
         return "H same";
     }
 
+
+    // ---- round c: copies of the parsed tag array ---------------------------------------------
+    // a non-empty tag array to be overwritten by copy assignment (every tag kind, nested)
+    static void parseOther(Tags_ &out) {
+        static const char *t = "{raw:a}{var:b}<loop set=\"l\" value=\"v\">{raw:v}{math:1+1}</loop>"
+                               "<if case=\"1\">{raw:a}<else />{var:b}</if>{if case=\"1\" true=\"{raw:a}\" false=\"{var:b}\"}"
+                               "{svar:p, {raw:a}, {var:b}}";
+        std::vector<uint64_t> u;
+        for (const char *q = t; *q; ++q) u.push_back(static_cast<unsigned char>(*q));
+        vh::ExactBuf<Char_T> in(u);
+        Core::Parse(static_cast<const Char_T *>(in.p), SizeT(in.n), out);
+    }
+
+    static std::string copies(const std::string &doc, const std::vector<uint64_t> &u) {
+        Keep   keep;
+        ValueT value;
+        if (!buildRoot(doc, value, keep)) return "bad-op";
+        vh::ExactBuf<Char_T> in(u);
+        const Char_T        *p = in.p;
+        Stream               fresh;
+        Template::Render(p, SizeT(in.n), value, fresh);
+        std::string t0 = "T ";
+        Tags_       assigned;
+        Tags_       appended;
+        parseOther(assigned);
+        std::unique_ptr<Tags_> constructed;
+        {
+            std::unique_ptr<Tags_> orig(new Tags_{});
+            Core::Parse(p, SizeT(in.n), *orig);
+            dumpTags(t0, *orig);
+            const Tags_ &co = *orig;
+            constructed.reset(new Tags_(co)); // copy constructor
+            assigned = co;                    // copy assignment over a non-empty array
+            appended += co;                   // Array += const Array&
+        }                                     // the original is gone: a copy must not point into it
+        std::string outs[3];
+        std::string tagdiff;
+        Tags_      *cs[3] = {constructed.get(), &assigned, &appended};
+        for (int k = 0; k < 3; ++k) {
+            std::string tk = "T ";
+            dumpTags(tk, *cs[k]);
+            if (tk != t0 && tagdiff.empty())
+                tagdiff = std::string(k == 0 ? "copy-constructed " : k == 1 ? "copy-assigned " : "appended ") + t0 + " | " + tk;
+            Stream       ss;
+            Core         temp{p, SizeT(in.n)};
+            const Tags_ &ct = *cs[k];
+            temp.Render(ct, value, ss);
+            outs[k] = show(ss);
+        }
+        const std::string a = show(fresh);
+        if (!(a == outs[0] && a == outs[1] && a == outs[2])) return "K diff " + a + "|" + outs[0] + "|" + outs[1] + "|" + outs[2];
+        if (!tagdiff.empty()) return "K tags-differ " + tagdiff;
+        return "K same";
+    }
+
+    static std::string renderCopy(const std::string &doc, const std::vector<uint64_t> &u) {
+        Keep   keep;
+        ValueT value;
+        if (!buildRoot(doc, value, keep)) return "bad-op";
+        vh::ExactBuf<Char_T> in(u);
+        const Char_T        *p = in.p;
+        Tags_                last;
+        parseOther(last);
+        {
+            Tags_ orig;
+            Core::Parse(p, SizeT(in.n), orig);
+            const Tags_ &co = orig;
+            Tags_        c1(co);
+            const Tags_ &cc = c1;
+            last            = cc;
+        }
+        Stream       ss;
+        Core         temp{p, SizeT(in.n)};
+        const Tags_ &ct = last;
+        temp.Render(ct, value, ss);
+        return "R " + show(ss);
+    }
+
+    // ---- round c: many consecutive renders appended to one stream, every small pre-existing length ----
+    static std::string append(const std::string &doc, const std::vector<uint64_t> &u) {
+        Keep   keep;
+        ValueT root;
+        if (!buildRoot(doc, root, keep)) return "bad-op";
+        std::vector<const ValueT *> values;
+        if (root.IsArray() && root.Size() != 0) {
+            for (SizeT k = 0; k < root.Size(); ++k) {
+                const ValueT *v = root.GetValue(k);
+                if (v != nullptr) values.push_back(v);
+            }
+        }
+        if (values.empty()) values.push_back(&root);
+        vh::ExactBuf<Char_T> in(u);
+        const Char_T        *p = in.p;
+        const std::string    v0 = dumpValue(root, keep);
+        std::vector<std::vector<Char_T>> fresh;
+        for (const ValueT *v : values) {
+            Stream s;
+            Template::Render(p, SizeT(in.n), *v, s);
+            fresh.emplace_back(s.First(), s.First() + s.Length());
+        }
+        Tags_ tags;
+        Core::Parse(p, SizeT(in.n), tags);
+        std::string t0 = "T ";
+        dumpTags(t0, tags);
+        const Tags_ &ctags  = tags;
+        const size_t rounds = values.size() < 4 ? 8 : 2 * values.size();
+        for (unsigned pre = 0; pre <= 64; ++pre) {
+            Stream              stream;
+            std::vector<Char_T> expected;
+            for (unsigned i = 0; i < pre; ++i) {
+                stream += Char_T('a' + (i % 26));
+                expected.push_back(Char_T('a' + (i % 26)));
+            }
+            for (size_t r = 0; r < rounds; ++r) {
+                const size_t id = r % values.size();
+                Core         temp{p, SizeT(in.n)};
+                temp.Render(ctags, *values[id], stream);
+                expected.insert(expected.end(), fresh[id].begin(), fresh[id].end());
+                if (size_t(stream.Length()) != expected.size() ||
+                    !std::equal(expected.begin(), expected.end(), stream.First())) {
+                    char b[96];
+                    snprintf(b, sizeof b, "A diff pre=%u round=%zu value=%zu ", pre, r, id);
+                    return std::string(b) + show(stream) + "|" + vh::show_units(expected.data(), expected.size());
+                }
+            }
+        }
+        if (dumpValue(root, keep) != v0) return "A value-changed";
+        std::string t1 = "T ";
+        dumpTags(t1, tags);
+        if (t0 != t1) return "A tags-changed";
+        return "A same";
+    }
+
     static std::string tags(const std::vector<uint64_t> &u) {
         vh::ExactBuf<Char_T> in(u);
         Tags_                tg;
@@ -381,6 +543,12 @@ struct H {
 template <typename Char_T>
 static std::string run(const std::vector<std::string> &t) {
     std::vector<uint64_t> u;
+    if (t.size() == 4 && (t[0] == "tplcopy" || t[0] == "tplrendercopy" || t[0] == "tplappend")) {
+        if (!vh::parse_nats(t[3], u)) return "bad-op";
+        if (t[0] == "tplcopy") return H<Char_T>::copies(t[2], u);
+        if (t[0] == "tplappend") return H<Char_T>::append(t[2], u);
+        return H<Char_T>::renderCopy(t[2], u);
+    }
     if (t.size() == 4 && (t[0] == "tplrender" || t[0] == "tplcache" || t[0] == "tplthreads")) {
         if (!vh::parse_nats(t[3], u)) return "bad-op";
         if (t[0] == "tplthreads") return H<Char_T>::threads(t[2], u);
